@@ -762,7 +762,8 @@ Proof. intros. apply map_app. Qed.
 
 (* what one accepted step does to the monitor's lists *)
 Lemma life_step_eff : forall L m L',
-    life_step L m = Some L' ->
+    WL L -> life_step L m = Some L' ->
+    WL L' /\
     incl (lf_used_t L) (lf_used_t L') /\ incl (lf_used_s L) (lf_used_s L') /\
     (forall x, In x (ids (lf_tasks L')) ->
                In x (ids (lf_tasks L)) \/ (n_kind m = TS /\ x = n_id m)) /\
@@ -770,50 +771,143 @@ Lemma life_step_eff : forall L m L',
                In x (ids (lf_svcs L)) \/ (n_kind m = SS /\ x = n_id m)) /\
     (n_kind m = TS -> ~ In (n_id m) (lf_used_t L) /\ In (n_id m) (lf_used_t L')) /\
     (n_kind m = SS -> ~ In (n_id m) (lf_used_s L) /\ In (n_id m) (lf_used_s L')) /\
-    (n_kind m = TF -> In (n_id m) (ids (lf_tasks L)) /\
-                      (NoDup (ids (lf_tasks L)) -> ~ In (n_id m) (ids (lf_tasks L')))) /\
-    (n_kind m = SF -> In (n_id m) (ids (lf_svcs L)) /\
-                      (NoDup (ids (lf_svcs L)) -> ~ In (n_id m) (ids (lf_svcs L')))) /\
-    (NoDup (ids (lf_tasks L)) -> ~ In (n_id m) (lf_used_t L) \/ n_kind m <> TS -> NoDup (ids (lf_tasks L'))) /\
-    (NoDup (ids (lf_svcs L)) -> ~ In (n_id m) (lf_used_s L) \/ n_kind m <> SS -> NoDup (ids (lf_svcs L'))).
+    (n_kind m = TF -> In (n_id m) (ids (lf_tasks L)) /\ ~ In (n_id m) (ids (lf_tasks L'))) /\
+    (n_kind m = SF -> In (n_id m) (ids (lf_svcs L)) /\ ~ In (n_id m) (ids (lf_svcs L'))).
 Proof.
-  intros L m L' H. unfold life_step in H. destruct (n_kind m) eqn:K.
+  intros L m L' (W1 & W2 & W3 & W4) H. unfold life_step in H. destruct (n_kind m) eqn:K.
   - (* TS *)
     match type of H with (if ?c then _ else _) = _ => destruct c eqn:C end; [|discriminate]. inv H.
     apply andb_true_iff in C. destruct C as [_ C]. apply negb_true_iff in C. apply mem_false in C.
-    cbn [lf_tasks lf_svcs lf_used_t lf_used_s ids map oi_of oi_id].
+    unfold WL. cbn [lf_tasks lf_svcs lf_used_t lf_used_s ids map oi_of oi_id].
     repeat split; try discriminate; try (apply incl_refl); try (apply incl_tl, incl_refl); auto.
+    + constructor; [intro Hi; apply C, W3, Hi|exact W1].
+    + intros x [Hx|Hx]; [left; exact Hx|right; apply W3, Hx].
     + intros x [Hx|Hx]; [right; auto|left; exact Hx].
     + left; reflexivity.
-    + admit.
-    + intros; assumption.
   - (* TF *)
     destruct (remove_first (oi_eqb (oi_of m)) (lf_tasks L)) as [rest|] eqn:R; [|discriminate].
     match type of H with (if ?c then _ else _) = _ => destruct c end; [discriminate|]. inv H.
     destruct (remove_first_split _ _ _ _ R) as (l1 & x & l2 & E1 & -> & Hx).
     apply oi_eqb_id in Hx. cbn [oi_of oi_id] in Hx.
-    cbn [lf_tasks lf_svcs lf_used_t lf_used_s]. rewrite E1, !ids_app. cbn [ids map]. rewrite <- Hx.
+    unfold WL. cbn [lf_tasks lf_svcs lf_used_t lf_used_s]. rewrite E1, !ids_app in *.
+    cbn [ids map] in *. rewrite <- Hx in *.
     repeat split; try discriminate; try (apply incl_refl); auto.
+    + apply NoDup_remove_1 in W1. exact W1.
+    + intros y Hy. apply W3. rewrite in_app_iff in *. cbn [In]. tauto.
     + intros y Hy. left. rewrite in_app_iff in *. cbn [In]. tauto.
     + rewrite in_app_iff. cbn [In]. auto.
-    + intro Hn. apply NoDup_remove_2 in Hn. exact Hn.
-    + intros Hn _. apply NoDup_remove_1 in Hn. exact Hn.
+    + apply NoDup_remove_2 in W1. exact W1.
   - (* SS *)
     match type of H with (if ?c then _ else _) = _ => destruct c eqn:C end; [|discriminate]. inv H.
     apply andb_true_iff in C. destruct C as [_ C]. apply negb_true_iff in C. apply mem_false in C.
-    cbn [lf_tasks lf_svcs lf_used_t lf_used_s ids map oi_of oi_id].
+    unfold WL. cbn [lf_tasks lf_svcs lf_used_t lf_used_s ids map oi_of oi_id].
     repeat split; try discriminate; try (apply incl_refl); try (apply incl_tl, incl_refl); auto.
+    + constructor; [intro Hi; apply C, W4, Hi|exact W2].
+    + intros x [Hx|Hx]; [left; exact Hx|right; apply W4, Hx].
     + intros x [Hx|Hx]; [right; auto|left; exact Hx].
     + left; reflexivity.
-    + admit.
   - (* SF *)
     destruct (remove_first (oi_eqb (oi_of m)) (lf_svcs L)) as [rest|] eqn:R; [|discriminate]. inv H.
     destruct (remove_first_split _ _ _ _ R) as (l1 & x & l2 & E1 & -> & Hx).
     apply oi_eqb_id in Hx. cbn [oi_of oi_id] in Hx.
-    cbn [lf_tasks lf_svcs lf_used_t lf_used_s]. rewrite E1, !ids_app. cbn [ids map]. rewrite <- Hx.
+    unfold WL. cbn [lf_tasks lf_svcs lf_used_t lf_used_s]. rewrite E1, !ids_app in *.
+    cbn [ids map] in *. rewrite <- Hx in *.
     repeat split; try discriminate; try (apply incl_refl); auto.
+    + apply NoDup_remove_1 in W2. exact W2.
+    + intros y Hy. apply W4. rewrite in_app_iff in *. cbn [In]. tauto.
     + intros y Hy. left. rewrite in_app_iff in *. cbn [In]. tauto.
     + rewrite in_app_iff. cbn [In]. auto.
-    + intro Hn. apply NoDup_remove_2 in Hn. exact Hn.
-    + intros Hn _. apply NoDup_remove_1 in Hn. exact Hn.
-Admitted.
+    + apply NoDup_remove_2 in W2. exact W2.
+Qed.
+
+(* a notification that the monitor can never accept again *)
+Definition Blk (n : notif) (L : life) : Prop :=
+  match n_kind n with
+  | TS => In (n_id n) (lf_used_t L)
+  | SS => In (n_id n) (lf_used_s L)
+  | TF => In (n_id n) (lf_used_t L) /\ ~ In (n_id n) (ids (lf_tasks L))
+  | SF => In (n_id n) (lf_used_s L) /\ ~ In (n_id n) (ids (lf_svcs L))
+  end.
+
+Lemma Blk_after : forall L n L', WL L -> life_step L n = Some L' -> Blk n L'.
+Proof.
+  intros L n L' HW H. pose proof HW as (W1 & W2 & W3 & W4).
+  destruct (life_step_eff _ _ _ HW H) as (_ & U1 & U2 & _ & _ & S1 & S2 & S3 & S4).
+  unfold Blk. destruct (n_kind n).
+  - apply S1. reflexivity.
+  - destruct (S3 eq_refl) as [A B]. split; [apply U1, W3, A|exact B].
+  - apply S2. reflexivity.
+  - destruct (S4 eq_refl) as [A B]. split; [apply U2, W4, A|exact B].
+Qed.
+
+Lemma Blk_step : forall L n m L',
+    WL L -> Blk n L -> life_step L m = Some L' ->
+    Blk n L' /\ (n_kind m = n_kind n -> n_id m <> n_id n).
+Proof.
+  intros L n m L' HW HB H.
+  destruct (life_step_eff _ _ _ HW H) as (_ & U1 & U2 & T1 & T2 & S1 & S2 & S3 & S4).
+  unfold Blk in *. destruct (n_kind n).
+  - split; [apply U1, HB|]. intros K E. destruct (S1 K) as [A _]. rewrite E in A. exact (A HB).
+  - destruct HB as [B1 B2]. split; [split; [apply U1, B1|]|].
+    + intro Hi. destruct (T1 _ Hi) as [Hi'|[K E]]; [exact (B2 Hi')|].
+      destruct (S1 K) as [A _]. rewrite <- E in A. exact (A B1).
+    + intros K E. destruct (S3 K) as [A _]. rewrite E in A. exact (B2 A).
+  - split; [apply U2, HB|]. intros K E. destruct (S2 K) as [A _]. rewrite E in A. exact (A HB).
+  - destruct HB as [B1 B2]. split; [split; [apply U2, B1|]|].
+    + intro Hi. destruct (T2 _ Hi) as [Hi'|[K E]]; [exact (B2 Hi')|].
+      destruct (S2 K) as [A _]. rewrite <- E in A. exact (A B1).
+    + intros K E. destruct (S4 K) as [A _]. rewrite E in A. exact (B2 A).
+Qed.
+
+(* no two notifications of the sequence are equal *)
+Fixpoint nodupn (ns : list notif) : Prop :=
+  match ns with
+  | [] => True
+  | n :: t => Forall (fun m => notif_eqb n m = false) t /\ nodupn t
+  end.
+
+Lemma Blk_run : forall n t L L',
+    WL L -> Blk n L -> life_run L t = Some L' -> Forall (fun m => notif_eqb n m = false) t.
+Proof.
+  intros n t. induction t as [|m t IH]; intros L L' HW HB H; [constructor|].
+  cbn [life_run] in H. destruct (life_step L m) as [L1|] eqn:E; [|discriminate].
+  destruct (Blk_step _ _ _ _ HW HB E) as [HB1 Hne].
+  destruct (life_step_eff _ _ _ HW E) as (HW1 & _).
+  constructor; [|eapply IH; eassumption].
+  destruct (notif_eqb n m) eqn:Q; [|reflexivity].
+  apply notif_eqb_key in Q. destruct Q as [Q1 Q2]. exfalso. apply Hne; congruence.
+Qed.
+
+Lemma life_run_nodup : forall ns L L', WL L -> life_run L ns = Some L' -> nodupn ns /\ WL L'.
+Proof.
+  induction ns as [|n t IH]; intros L L' HW H.
+  - cbn in H. inv H. split; [exact I|exact HW].
+  - cbn [life_run] in H. destruct (life_step L n) as [L1|] eqn:E; [|discriminate].
+    destruct (life_step_eff _ _ _ HW E) as (HW1 & _).
+    destruct (IH _ _ HW1 H) as [N1 W']. split; [|exact W']. split; [|exact N1].
+    eapply Blk_run; [exact HW1|exact (Blk_after _ _ _ HW E)|exact H].
+Qed.
+
+Definition call_nodup (r : callrec) : Prop := nodupn (map fst (ee_notifs (cr_log r))).
+
+Lemma life_calls_nodup : forall tr cs L,
+    WL L -> life_calls L cs tr = true -> Forall call_nodup tr.
+Proof.
+  induction tr as [|r t IH]; intros cs L HW H; [constructor|].
+  destruct cs as [|c cs]; [discriminate|]. cbn [life_calls] in H.
+  apply andb_true_iff in H. destruct H as [_ H].
+  destruct (life_run L (map fst (ee_notifs (cr_log r)))) as [L'|] eqn:E; [|discriminate].
+  apply andb_true_iff in H. destruct H as [_ H].
+  destruct (life_run_nodup _ _ _ HW E) as [N1 W']. constructor; [exact N1|]. eapply IH; eassumption.
+Qed.
+
+Lemma WL_life0 : WL life0.
+Proof. repeat split; try constructor; intros x []. Qed.
+
+(* in every run of the reference semantics the notifications of one call are pairwise different *)
+Theorem ref_call_nodup : forall orc imm body f cs tr,
+    run_script orc imm f body sched0 cs = Ok tr -> Forall call_nodup tr.
+Proof.
+  intros orc imm body f cs tr H. eapply life_calls_nodup; [apply WL_life0|].
+  exact (C07_ref orc imm body f cs tr H).
+Qed.
